@@ -12,12 +12,20 @@ TECHNIQUE = "Lean 4 theorems on relative links (resolve(relative from to) = to) 
 LEVEL_TEXT = ("Lean model of href.relative / href.parent and of the page hierarchy of website.py (paths, titles, breadcrumbs, stylesheet, category and recipe "
               "lists, serving menus) over an abstract source tree; theorem: resolving relative(from, to) against from by RFC 3986 gives to for all absolute "
               "paths of file-like pages; the model's page set and every page's generated links are compared with real generated sites; every link of "
-              "every page of generated sites (including authored links in every spelling) is resolved and checked by the crawl oracle.")
-LEVEL_NOTE = ("Partial: lxml's rewrite_links, Jinja2 and the file system are outside the model; liveness of authored links rests on the crawl oracle over "
-              "generated trees (search). Liveness of every generated link (every_link_resolves) and reachability of every page from the home page through "
+              "every page of generated sites (including authored links in every spelling) is resolved and checked by the crawl oracle. "
+              "Authored links (C14c): the source -> page table of make_source_to_page_paths_lookup is modelled (sourceToPagePaths: a Python-dict model over "
+              "every page's sources in iter_all_pages order) and proved complete (sources_complete: exactly one entry per directory, readme and recipe file) "
+              "and sound (sources_point_at_pages); authored_link_target / authored_link_by_path: for every page p of the site and every document of the tree, "
+              "the link resolve_local_links writes, percent-decoded and resolved against p, is the page of that document at the reader's serving count "
+              "(or its only page), a page of the site - so no authored link to anything inside the tree is dead, for every source tree with admissible names; "
+              "authored_link_home / home_condition_needed: the home-readme special case and why it is needed. The table and the rewritten links of "
+              "one-link documents are compared exactly with the real code.")
+LEVEL_NOTE = ("Partial: lxml's rewrite_links, Jinja2 and the file system are outside the model (symbolic links inside the source tree are outside the "
+              "authored-link theorems: the table is keyed by unresolved paths, the lookup by resolved ones); liveness of authored links to local files that "
+              "are not documents (assets) rests on the crawl oracle over generated trees (search). Liveness of every generated link (every_link_resolves) and reachability of every page from the home page through "
               "generated links (every_page_reachable, reachable_iff_page) are theorems about the page-hierarchy model for all source trees with "
               "admissible names. Trusted: Lean kernel, model as far as correspondence exercises it.")
-LEAN_MODULES = ["RecipeGrid.Props.C14", "RecipeGrid.Props.C14b"]
+LEAN_MODULES = ["RecipeGrid.Props.C14", "RecipeGrid.Props.C14b", "RecipeGrid.Props.C14c"]
 SOURCES = ["recipe_grid/static_site/website.py", "recipe_grid/static_site/href.py", "recipe_grid/static_site/html_postprocessing.py"]
 RULE = ("source trees of depth <= 3, fan-out <= 3, names with spaces, camel case, Unicode (correspondence) and additionally # ? % & ' \" (oracle), with and "
         "without readme files (every readme file name), scalable and unscalable recipes, authored links among recipes / directories / readmes / assets in "
@@ -119,6 +127,39 @@ def correspondence(run):
                 run.disagree("site", {"tree": gen_site.tree_sexp(d), "M": M}, {"only_real": only_r, "diff": diff}, {"only_model": only_m})
         finally:
             shutil.rmtree(scratch, ignore_errors=True)
+    sources_correspondence(run)
+
+
+def sources_correspondence(run):
+    """C14c: the source -> page table (make_source_to_page_paths_lookup) and the rewriting of authored links against the model
+    (harness/sitesources_corr.py, its own process): tables compared entry by entry incl. order, one-link documents through the real
+    resolve_local_links vs rewriteDecision fed with the model's entry, landing page vs the statement of authored_link_target"""
+    import os
+    import re
+    import subprocess
+    import sys
+    here = os.path.dirname(os.path.dirname(os.path.abspath(__file__)))
+    n = run.budget(25, 600) if not getattr(run, "escalated", False) else 200
+    p = subprocess.run([sys.executable, os.path.join(here, "sitesources_corr.py"), str(20260930 + run.seed), str(n)], stdout=subprocess.PIPE, stderr=subprocess.STDOUT,
+                       text=True, timeout=3000, env=dict(os.environ, PYTHONPATH=os.pathsep.join(x for x in sys.path if x)))
+    m = re.search(r"disagreements \(model vs code\): (\d+)", p.stdout)
+    v = re.search(r"property violations on the real code: (\d+)", p.stdout)
+    if not m or not v:
+        run.disagree("site-sources", "harness/sitesources_corr.py", p.stdout[-800:], "n/a")
+        return
+    for line in p.stdout.splitlines():
+        mm = re.match(r"\s+(\S.*?)\s+(\d+)$", line)
+        if mm and not line.lstrip().startswith(("DISAGREE", "VIOLATION")):
+            run.dist["site-sources:" + mm.group(1)] += int(mm.group(2))
+            if mm.group(1) == "table entries compared":
+                run.groups["source -> page table entries vs sourceToPagePaths"] += int(mm.group(2))
+            if mm.group(1).startswith("link:"):
+                run.groups["authored link rewriting vs rewriteDecision + authored_link_target"] += int(mm.group(2))
+                run.evaluations += int(mm.group(2))
+    for line in [l for l in p.stdout.splitlines() if l.lstrip().startswith("DISAGREE")][:10]:
+        run.disagree("site-sources", "seed %d" % (20260930 + run.seed), line.strip()[:1200], "model")
+    for line in [l for l in p.stdout.splitlines() if l.lstrip().startswith("VIOLATION")][:5]:
+        run.violate("C14:authored-link-does-not-land-on-the-linked-document", line.strip()[:1200], {"sitesources_seed": 20260930 + run.seed, "trees": n})
 
 
 # ------------------------------------------------------------------ crawl oracle
@@ -425,6 +466,15 @@ def replay_inert(r):
 
 def replay(run, obj):
     r = obj["replay"]
+    if "sitesources_seed" in r:
+        import os
+        import subprocess
+        import sys
+        here = os.path.dirname(os.path.dirname(os.path.abspath(__file__)))
+        p = subprocess.run([sys.executable, os.path.join(here, "sitesources_corr.py"), str(r["sitesources_seed"]), str(r["trees"])], stdout=subprocess.PIPE, stderr=subprocess.STDOUT,
+                           text=True, env=dict(os.environ, PYTHONPATH=os.pathsep.join(x for x in sys.path if x)))
+        print(p.stdout[-1500:])
+        return "property violations on the real code: 0" not in p.stdout
     res = check_site(d_unjson(r["site"]), r["M"], r.get("mode", "abs"), r.get("regen", False))
     for x in res:
         print(*x)
